@@ -91,7 +91,7 @@ def _new_recipe(rng, known_shapes):
 def _gen_call(rng, meta, force_sel=None):
     recipe = meta["recipe"]
     has_site = any(k == "site" for k, _ in recipe["dims"])
-    if meta["kind"] == "ds" and has_site and recipe.get("nd", 0) >= 0 and (force_sel or rng.random() < 0.25):
+    if meta["kind"] == "ds" and has_site and recipe.get("nd", 0) >= 0 and (force_sel or rng.random() < (0.6 if meta.get("via") else 0.25)):
         lon0, lat0 = recipe.get("lon0", 150.0), recipe.get("lat0", -30.0)
         n = rng.randint(1, 3)
         conv = rng.choice(["same", "same", "other"])
@@ -99,7 +99,7 @@ def _gen_call(rng, meta, force_sel=None):
         if conv == "other":
             lons = [(x - 360 if x > 180 else (x + 360 if x < 0 else x)) for x in lons]
         lats = [round(lat0 + rng.uniform(0, 5), 2) for _ in range(n)]
-        method = rng.choice(["idw", "nearest", "bbox", "nearest", None, None]) if force_sel is None else None
+        method = rng.choice(["idw", "nearest", "bbox", "nearest", None, None] + (["bbox", "bbox"] if meta.get("via") else [])) if force_sel is None else None
         kw = {"method": method, "tolerance": rng.choice([2.0, 10.0, 10.0])}
         if method == "nearest" and rng.random() < 0.3:
             kw["unique"] = True
@@ -194,8 +194,8 @@ def gen_plan(rng, tier="quick", prop="C18"):
         kind = rng.choice(["ds", "ds", "da"])
         backing = rng.choices(["numpy", "dask", "view"], [7, 2, 1] if prop == "C18" else [5, 3, 2])[0]
         st = {"op": "new", "slot": slot, "kind": kind, "recipe": recipe, "backing": backing}
-        has_ts = [k for k, _ in recipe["dims"]] in (["time", "site"],) and recipe["nd"] >= 2
-        if backing == "numpy" and has_ts and rng.random() < 0.35:
+        has_ts = [k for k, _ in recipe["dims"]] in (["time", "site"], ["site", "time"]) and recipe["nd"] >= 2
+        if backing == "numpy" and has_ts and rng.random() < 0.5:
             st["via"] = rng.choice(["ww3", "netcdf", "swan", "json"])
             recipe["dir_first"] = False
             recipe["spec_last"] = True
@@ -216,7 +216,7 @@ def gen_plan(rng, tier="quick", prop="C18"):
                 k = max(sorted(st["chunks"]), key=nb)
                 st["chunks"][k] = -1 if nb(k) <= 2 else -(-sizes[k] // 2)
         steps.append(st)
-        metas[slot] = {"kind": kind, "recipe": recipe, "backing": backing, "prop": prop, "all": metas}
+        metas[slot] = {"kind": kind, "recipe": recipe, "backing": backing, "prop": prop, "all": metas, "via": st.get("via")}
         if recipe["nd"] >= 2:
             known_shapes.append((recipe["nf"], recipe["nd"]))
 
@@ -252,6 +252,13 @@ def gen_plan(rng, tier="quick", prop="C18"):
                 known_shapes.append((r["nf"], r["nd"]))
         elif kind == "bad":
             steps.append({"op": "bad", "slot": slot, "bad": _gen_bad(rng, meta)})
+            if rng.random() < 0.5:
+                # a failing call followed by an observation, an in-place edit and another observation of the same object:
+                # whatever the failure left enabled on the object is then seen against fresh contents
+                probe = rng.choice([{"m": "hs", "via": "da"}, {"m": "tm01", "via": "da"}, {"m": "tp", "via": "da"}, {"m": "stats", "via": "da", "stats": ["hs", "tm02"], "kw": {}}])
+                steps.append({"op": "call", "slot": slot, "call": dict(probe), "both": False})
+                steps.append({"op": "edit", "slot": slot, "edit": _gen_edit(rng, meta)})
+                steps.append({"op": "call", "slot": slot, "call": dict(probe), "both": False})
         elif kind == "edit":
             steps.append({"op": "edit", "slot": slot, "edit": _gen_edit(rng, meta)})
         elif kind == "native":
